@@ -712,7 +712,9 @@ static int cmd_check(std::map<std::string, std::string> & args)
   printf("SUMMARY runs=%llu ok=%llu violating=%llu distinct_cover=%zu deaths=%d det_reruns=%llu wall=%.1fs (%.0f runs/h)\n",
          (unsigned long long)agg.runs, (unsigned long long)agg.ok, (unsigned long long)agg.violations, agg.cover.size(), worker_deaths,
          (unsigned long long)det_checked, wall, t_batch > 0 ? agg.runs * 3600.0 / t_batch : 0.0);
-  if (rc == 0 && !found.empty()) rc = 1;
+  // a violation that passed the gate (reproduced twice, shrunk, replayed from its file in a brand-new
+  // process) stands even if another suspect of the same batch could not be reproduced
+  if (!found.empty()) rc = 1;
   return rc;
 }
 
